@@ -494,6 +494,9 @@ func (e *Engine) verifapi(fr *frame, fn *ssa.Function, a []Value) Value {
 			m.flip = true
 		}
 		return nil
+	case "FlipAllMaps":
+		e.flipAll = true
+		return nil
 	case "StubLexer":
 		e.stubLexer = true
 		return nil
